@@ -28,7 +28,7 @@ def load_engine(prop):
 
 def broken_obligations(build, engine, prop):
     """Names of proof obligations relevant to this property that no longer check."""
-    if build.ok:
+    if build.ok and all(st["translated"] for st in common.TRANSLATION_STATUS.values()):
         return []
     broken = []
     gen_path = os.path.join(common.LEAN, "FinamModel", "Props", "Gen.lean")
@@ -55,10 +55,11 @@ def broken_obligations(build, engine, prop):
                 src_lines = open(os.path.join(common.LEAN, file)).read().splitlines()
             except OSError:
                 pass
+            my_groups = {sp["group"] for sp in trspecs.SPECS if prop in sp["props"]}
             if "/Translated/" in file:
                 fname = os.path.basename(file)[:-5]
                 specs = [sp for sp in trspecs.SPECS if sp["lean"] == fname]
-                if any(prop in sp["props"] for sp in specs):
+                if any(sp["group"] in my_groups for sp in specs):
                     broken.append({"theorem": f"translated function {fname} does not compile", "message": msg[:300]})
             else:
                 group = os.path.basename(file)[2:-5]
@@ -76,6 +77,13 @@ def broken_obligations(build, engine, prop):
             stem = file.replace("FinamModel/", "").replace(".lean", "").replace("/", ".")
             if stem in mods or stem == f"Props.{prop}":
                 broken.append({"theorem": f"module {stem}", "message": msg[:300]})
+    # functions the translator could not read any more (their generated file only holds a marker)
+    from . import trspecs as _ts
+    for sp in _ts.SPECS:
+        st = common.TRANSLATION_STATUS.get(sp["lean"])
+        if st and not st["translated"] and prop in sp["props"]:
+            broken.insert(0, {"theorem": f"translated function {sp['lean']} ({st['source']}) can no longer be translated",
+                              "message": str(st["error"])[:300]})
     # de-duplicate
     seen, out = set(), []
     for b in broken:
